@@ -4,21 +4,21 @@ import json, os
 V = os.path.dirname(os.path.dirname(os.path.abspath(__file__)))
 
 CLAIMS = {
- "C01": ("W1-W7 wiring clauses", "transport-stack table (finite-configuration evaluation of the listener, helpers spliced), pump cross-wiring, dial-what-was-decoded (whole-address cache keys), no decoded payload dropped, need-more re-entrancy and length proofs of the TCP-path decoders (C04 R4 re-evaluated), pump source failure still delivers what was forwarded, no abortive close, no per-flow handshake awaited in a TCP accept loop (C08 L2 re-evaluated), request-complete-means-connect (C04 R4k re-evaluated): type/derivation/dominance rules over MIR", "4/C01, 13, 14, 15"),
- "C02": ("U1-U9 routing/ownership clauses", "derivation (def-use) rules: reply goes to the recorded sender and keeps the label it came with, binding/association keys, user attribution, reply address fixed behind the replay filter; whole-datagram encoders; receive buffers hold any datagram on every loop iteration; one unit per datagram decode; the binding key identifies the target; a reply renews its binding; the reply user follows the forwarded datagram", "4/C02, 13, 14, 15"),
- "C03": ("S1-S7 constant/ordering tables", "constants and hash choices at resolved call sites compared with a table written from the published specifications; sender limits; big-endian who-may-call; nonce slices and counter shapes (little-endian carry, wrapping chunk counter); identity-header chain; length fields taken at face value; VMess session sibling agreement; one SHAKE stream for mask and padding; padding and initial payload of a 2022 request are independent (finite-case evaluation)", "4/C03, 13, 14, 15"),
+ "C01": ("W1-W8 wiring clauses", "transport-stack table (finite-configuration evaluation of the listener, helpers spliced), pump cross-wiring, dial-what-was-decoded (whole-address cache keys), no decoded payload dropped, need-more re-entrancy and length proofs of the TCP-path decoders (C04 R4 re-evaluated), pump source failure still delivers what was forwarded, no abortive close, no per-flow handshake awaited in a TCP accept loop (C08 L2 re-evaluated), request-complete-means-connect (C04 R4k re-evaluated), no select! branch that carries a chunk across an await: type/derivation/dominance rules over MIR", "4/C01, 13, 14, 15, 16"),
+ "C02": ("U1-U10 routing/ownership clauses", "derivation (def-use) rules: reply goes to the recorded sender and keeps the label it came with, binding/association keys, user attribution, reply address fixed behind the replay filter; whole-datagram encoders; receive buffers hold any datagram on every loop iteration; one unit per datagram decode; the binding key identifies the target; a reply renews its binding; the reply user follows the forwarded datagram; what the replay filter forgets when its window moves (C11 F4 re-evaluated)", "4/C02, 13, 14, 15, 16"),
+ "C03": ("S1-S8 constant/ordering tables", "constants and hash choices at resolved call sites compared with a table written from the published specifications; sender limits; big-endian who-may-call; nonce slices and counter shapes (little-endian carry, wrapping chunk counter); identity-header chain; length fields taken at face value; VMess session sibling agreement; one SHAKE stream for mask and padding; padding and initial payload of a 2022 request are independent (finite-case evaluation); two-sided timestamp tolerance (C10 V1a re-evaluated)", "4/C03, 13, 14, 15, 16"),
  "C04": ("R4a-R4k decoder/reader contract", "typestate of the source buffer on every need-more path, length guards before reads (buffer-length abstract interpretation), Pending-only-from-inner-poll, leftover re-offered and restored before the transport poll, no replay-cache trace before need-more, recorded progress, length-predictor agreement, need-more decided per state (also through delegation to an inner state machine), a complete stream request hands out its connect item in the same activation", "4/C04, 12, 13, 15"),
- "C05": ("T1-T4 release-after-authentication", "taint typestate: network bytes reach a sink only through the success edge of an AEAD open; stop after error (error latch tested before every decode); direction separation tables and response-bound-to-request (C10 V2/V4, C03 S4 re-evaluated); no generator step without an AEAD call; one cipher state per derived subkey (C12 N6 re-evaluated)", "4/C05, 12, 13, 14, 15"),
+ "C05": ("T1-T4 release-after-authentication", "taint typestate: network bytes reach a sink only through the success edge of an AEAD open; stop after error (error latch tested before every decode); direction separation tables and response-bound-to-request (C10 V2/V4, C03 S4 re-evaluated); no generator step without an AEAD call; one cipher state per derived subkey (C12 N6 re-evaluated); the chunk counter wraps, never sticks (C03 S3 re-evaluated)", "4/C05, 12, 13, 14, 15, 16"),
  "C06": ("A1-A6 credential dominance", "every relay-item construction / state transition in a server codec is dominated by the success edge of the credential check; user/key derivations and credential tables without placeholders; datagram cipher-cache key; credential state is per listener (no single-slot static filled from configuration); reply path of an association is its owner's and its reply user follows the datagram that is forwarded", "4/C06, 12, 13, 14, 15"),
- "C07": ("P1-P3 panic-site inventory + discharge", "every panicking construct reachable from a network-facing decoder is an obligation discharged by a buffer-length abstract interpretation, variant-certainty dominance or a reviewed premise", "4/C07"),
- "C08": ("L1-L7 service-loop exits", "exit edges and awaits of listener loops classified by cause over MIR natural loops; panic hook cannot panic; sibling listeners of one entry are joined so that one's end does not cancel the other; C07 panic sites that run in the listener's own task; a shared lock is never re-acquired under a live guard; handshake summaries ignore what is handed to tokio::spawn", "4/C08, 12, 13, 14, 15"),
- "C09": ("K0-K9 shared-state discipline", "inventory of statics / interior mutability / Arc payloads; no &mut from shared; lock not try_lock; test-and-set under one guard acquisition (Mutex or RwLock); recorded salts never removed; no guard across await; no unsafe Send/Sync; shared table keys; single-slot statics independent of the first caller; reply path not rewritten by another flow; every test-and-set answer decides; no re-acquisition of a lock under a live guard", "4/C09, 12, 13, 14, 15"),
- "C10": ("V1-V4 freshness/type/replay/binding checks", "window constants normalised to accept intervals; dominance of every accepting return by timestamp, type, salt-lookup and echo checks; cache expiry >= 2x window; concurrent copies (C09 K3 re-evaluated); the echo compare is an equality; the clock operand of a freshness comparison is read when the token is judged; the salt is recorded only after authentication", "4/C10, 13, 14, 15"),
- "C11": ("F1-F5 filter use-sites and constants", "filter success edge dominates forwarding; refusal edge returns to the loop head; one filter per session; window constant relations; associations removed only by expiry; a dropped datagram leaves nothing in the reader's buffer (buffer-length interpretation)", "4/C11, 14, 15"),
- "C12": ("N1-N6 nonce provenance", "per-session secrets derive from the CSPRNG inside the constructor, are never rewritten afterwards, and forbidden RNGs are never called; one generator step per AEAD call; packet-id increments dominate encodes and a kept session id implies a kept packet id; cipher-cache key components; subkey material is key||salt; self-carried nonces are filled from the CSPRNG; an own session id kept implies the own packet counter kept (exact copy provenance); one cipher state per derived subkey", "4/C12, 12, 13, 14, 15"),
- "C13": ("H1-H7 local-handshake clauses", "roles resolved by type (dispatcher, sniffer, extractor, SOCKS5 exchange); the tunnelled address derives only from the parsed request; each protocol's answer is written on its own arm behind the read it answers; plain HTTP arm touches nothing; CONNECT consumption tied to the parser's length; SOCKS5 readers keep their buffer between phases; refusal edges reach Err; parser status tested and Partial never answered; version/selector constants; authority delimiters searched only after the path cut; a repeated CONNECT read is steered by the parser", "11, 13, 15"),
- "C14": ("E1-E6 address encoders", "narrowing casts of wire lengths are range-guarded; empty name refused; sibling encode/decode/length tables agree per variant; checked UTF-8; decoded values are not transformed; the stream a datagram is written into was opened for that datagram's target (C02 U2 re-evaluated)", "4/C14, 14, 15"),
- "C15": ("D1-D9 teardown wiring", "first-error-wins join with all-Err futures, forward/close on every pump, failure paths drop the inbound, JoinHandle owners abort on drop, Sink impls emit what start_send buffered, a pump's source failure still delivers what was forwarded, no abortive close, release does not wait for the peer, received payload is relayed unless the dial failed", "4/C15, 12, 13, 14, 15"),
+ "C07": ("P1-P4 panic-site inventory + discharge", "every panicking construct reachable from a network-facing decoder is an obligation discharged by a buffer-length abstract interpretation, variant-certainty dominance or a reviewed premise (entries relocate only within the checks that use them); poll_* functions do not call themselves", "4/C07, 16"),
+ "C08": ("L1-L9 service-loop exits", "exit edges and awaits of listener loops classified by cause over MIR natural loops; panic hook cannot panic; sibling listeners of one entry are joined so that one's end does not cancel the other; C07 panic sites that run in the listener's own task; a shared lock is never re-acquired under a live guard; handshake summaries ignore what is handed to tokio::spawn; a counted admission slot is released on every exit of the task", "4/C08, 12, 13, 14, 15, 16"),
+ "C09": ("K0-K10 shared-state discipline", "inventory of statics / interior mutability / Arc payloads; no &mut from shared; lock not try_lock; test-and-set under one guard acquisition (Mutex or RwLock); recorded salts never removed; no guard across await; no unsafe Send/Sync; shared table keys; single-slot statics independent of the first caller; reply path not rewritten by another flow; every test-and-set answer decides; no re-acquisition of a lock under a live guard; the select of a loop shared by flows is not biased", "4/C09, 12, 13, 14, 15, 16"),
+ "C10": ("V1-V4 freshness/type/replay/binding checks", "window constants normalised to accept intervals; dominance of every accepting return by timestamp, type, salt-lookup and echo checks; cache expiry >= 2x window; concurrent copies (C09 K3 re-evaluated); the echo compare is an equality; the clock operand of a freshness comparison is read when the token is judged; the salt is recorded only after authentication; a type check over the side enum needs a strict byte->side decoder", "4/C10, 13, 14, 15, 16"),
+ "C11": ("F1-F5 filter use-sites and constants", "filter success edge dominates forwarding; refusal edge returns to the loop head; one filter per session; window constant relations; associations removed only by expiry; a dropped datagram leaves nothing in the reader's buffer (buffer-length interpretation); the ring is cleared only over the block difference; no addition to a wire id", "4/C11, 14, 15, 16"),
+ "C12": ("N1-N7 nonce provenance", "per-session secrets derive from the CSPRNG inside the constructor, are never rewritten afterwards, and forbidden RNGs are never called; one generator step per AEAD call; packet-id increments dominate encodes and a kept session id implies a kept packet id; cipher-cache key components; subkey material is key||salt; self-carried nonces are filled from the CSPRNG; an own session id kept implies the own packet counter kept (exact copy provenance); one cipher state per derived subkey; a labelled key derivation dominates the cipher state it separates", "4/C12, 12, 13, 14, 15, 16"),
+ "C13": ("H1-H7 local-handshake clauses", "roles resolved by type (dispatcher, sniffer, extractor, SOCKS5 exchange); the tunnelled address derives only from the parsed request; each protocol's answer is written on its own arm behind the read it answers; plain HTTP arm touches nothing; CONNECT consumption tied to the parser's length; SOCKS5 readers keep their buffer between phases; refusal edges reach Err; parser status tested and Partial never answered; version/selector constants; authority delimiters searched only after the path cut; a repeated CONNECT read is steered by the parser; the extractor is handed the request line's own method and target", "11, 13, 15, 16"),
+ "C14": ("E1-E7 address encoders", "narrowing casts of wire lengths are range-guarded; empty name refused; sibling encode/decode/length tables agree per variant; checked UTF-8; decoded values are not transformed; the stream a datagram is written into was opened for that datagram's target (C02 U2 re-evaluated); consumed lengths around the address never come from scanning the bytes", "4/C14, 14, 15, 16"),
+ "C15": ("D1-D10 teardown wiring", "first-error-wins join with all-Err futures, forward/close on every pump, failure paths drop the inbound, JoinHandle owners abort on drop, Sink impls emit what start_send buffered, a pump's source failure still delivers what was forwarded, no abortive close, release does not wait for the peer, received payload is relayed unless the dial failed, the QUIC idle timer is not switched off", "4/C15, 12, 13, 14, 15, 16"),
  "C16": ("G1-G8 configuration tables", "serde names vs README tables, cipher kind -> algorithm -> key size -> const generic (per-kind evaluation through kind tables), mode predicates vs listeners, password->key sibling agreement, key length checked, no start-up panics, Unknown cipher starts nothing, identity keys in configured order, over-long keys refused, the config document reaches the types with no member removed", "4/C16, 12, 13, 14, 15"),
 }
 NA = {
